@@ -268,6 +268,10 @@ func (f *evFeatures) classify(o EvOp, x, y, pmsg string) (string, string) {
 		case strings.Contains(pmsg, "Failed to minus balance") && o.K == "subbal":
 			return "precondition:subbalance-underflow", detail
 		}
+		if y != "panic" {
+			// inside a transaction this panic reaches handlePanic, which closes the application (C18)
+			return "adapter-panics-where-reference-does-not", detail
+		}
 		return "adapter-differs-from-reference", detail
 	}
 	a := o.A
